@@ -61,13 +61,15 @@ func (s Spec) floors(tier string) map[string]int64 {
 }
 // hangIsViolation decides whether the goroutine dump written by the per-case watchdog shows the stuck
 // state the property forbids, as opposed to a slow machine: some goroutine whose stack matches
-// HangViolation has been waiting for a lock for at least a minute ("N minutes" in its header), and no
-// goroutine matching HangViolation is doing anything else (a holder that is still working = contention).
+// HangViolation has been parked for at least a minute ("N minutes" in its header), and no goroutine
+// matching HangViolation has run within the last minute (a holder that is still working = contention).
+var reMinutes = regexp.MustCompile(`, \d+ minutes[,\]]`)
+
 func (s Spec) hangIsViolation(dump string) bool {
 	if s.HangViolation == nil {
 		return false
 	}
-	waiting, working := 0, 0
+	waiting, working, lockWaiters := 0, 0, 0
 	for _, g := range strings.Split(dump, "\n\n") {
 		if !strings.HasPrefix(g, "goroutine ") || !s.HangViolation.MatchString(g) {
 			continue
@@ -76,15 +78,21 @@ func (s Spec) hangIsViolation(dump string) bool {
 		if i := strings.IndexByte(g, '\n'); i > 0 {
 			head = g[:i]
 		}
-		lockWait := strings.Contains(head, "Mutex.Lock") || strings.Contains(head, "Mutex.RLock") || strings.Contains(head, "semacquire")
-		switch {
-		case lockWait && strings.Contains(head, "minutes"):
+		// "[<state>, N minutes]": parked for at least a minute (lock, channel, select, condition variable - a
+		// lock-order deadlock has one party waiting for a lock and the other for a channel); anything without the
+		// annotation has run within the last minute
+		if reMinutes.MatchString(head) {
 			waiting++
-		case !lockWait:
+			if strings.Contains(head, "Mutex.Lock") || strings.Contains(head, "Mutex.RLock") || strings.Contains(head, "semacquire") {
+				lockWaiters++
+			}
+		} else {
 			working++
 		}
 	}
-	return waiting > 0 && working == 0
+	// (at least one of the parked parties waits for a lock: the state a property forbids is a lock that is never
+	// released; goroutines that merely wait for a channel while the case is stuck elsewhere do not qualify)
+	return waiting > 0 && working == 0 && lockWaiters > 0
 }
 
 var routeAssumptions = []string{
@@ -319,6 +327,7 @@ var specs = map[string]Spec{
 		ExtraEngine: "wire", ExtraRun: "^(TestMuxEstablisher|TestMuxReceiver)$", ExtraRace: true, ExtraShards: 10,
 		Engine: "muxsim", Run: "^TestMux$", Race: true,
 		RaceViolation: regexp.MustCompile(`multiMuxManager\)\.(AddConnection|unregisterMux|GetMuxConnections|notifyChange|onClose)`),
+		HangViolation: regexp.MustCompile(`mux\.\(\*multiMuxManager\)\.`),
 		QuickShards:   16, ThoroughShards: 16, QuickWatchdog: 10 * time.Minute, ThoroughWatchdog: 90 * time.Minute,
 		MaxProcs:    []int{16, 4, 2, 1},
 		Level:       "fault_enumeration",
